@@ -151,7 +151,13 @@ def run(ctx):
 
     # index table of LazyStruct: names map to positions in the same list that _parse offsets and __getitem__ index
     fi, paths = own_method_paths(ctx, "LazyStruct", "__init__")
-    w = [N.canon_lids(e["value"]) for p in paths for e in p.events if e.kind == "SELFWRITE" and e["attr"] == "_subconsindexes"]
+    w = []
+    for p in paths:
+        raw = [e["value"] for e in p.events if e.kind == "SELFWRITE" and e["attr"] == "subcons"]
+        back = {raw[-1]: N.selfattr("subcons")} if raw else {}
+        for e in p.events:
+            if e.kind == "SELFWRITE" and e["attr"] == "_subconsindexes":
+                w.append(N.canon_lids(N.subst(e["value"], back)))
     subs = N.selfattr("subcons")
     el = ("elem", subs, 0)
     want_gen = ("comp", "gen", ("tuple", (("attr", el, "name"), ("idx", 0))), ((("call", ("free", "enumerate"), (subs,), ()), (("attr", el, "name"),)),), (0,))
